@@ -688,6 +688,10 @@ where
             }
         }
 
+        // the channel is closed (unsubscribe() or store shutdown): release the user's subscriber,
+        // as a direct subscriber would be
+        subscriber.on_unsubscribe();
+
         #[cfg(dev)]
         eprintln!("store: {} channel thread done", _name);
     }
